@@ -255,36 +255,28 @@ func deleteFilteredData[T any](remoteWrite bool, existingData []T, filterData *F
 
 	var result []T
 	for i := range existingData {
-		writeAllowed := writeAllowed(existingData[i])
-		if !writeAllowed && remoteWrite {
-			success = false
+		// without a selector the filter applies to all items, otherwise only to the matching ones
+		if filterData.Selector != nil && !filterData.SelectorMatch(util.Ptr(existingData[i])) {
+			result = append(result, existingData[i])
 			continue
 		}
 
-		if filterData.Selector != nil && filterData.Elements != nil {
-			// selector and elements filter
+		// only the items the filter applies to decide if a remote write is allowed,
+		// and an item that may not be written is kept as it is
+		writeAllowed := writeAllowed(existingData[i])
+		if !writeAllowed && remoteWrite {
+			success = false
+			result = append(result, existingData[i])
+			continue
+		}
 
-			// remove the fields defined in element if the item matches
-			if filterData.SelectorMatch(util.Ptr(existingData[i])) {
-				RemoveElementFromItem(&existingData[i], filterData.Elements)
-				result = append(result, existingData[i])
-			} else {
-				result = append(result, existingData[i])
-			}
-		} else if filterData.Selector != nil {
-			// only selector filter
-
-			// remove the whole item if the item matches
-			if !filterData.SelectorMatch(util.Ptr(existingData[i])) {
-				result = append(result, existingData[i])
-			}
-		} else {
-			// only elements filter
-
+		if filterData.Elements != nil {
 			// remove the fields defined in element
 			RemoveElementFromItem(&existingData[i], filterData.Elements)
 			result = append(result, existingData[i])
 		}
+
+		// with only a selector the whole item is removed
 	}
 
 	return result, success
